@@ -41,7 +41,7 @@ fn main() {
                 count: arg_val(&args, "--count").and_then(|s| s.parse().ok()).unwrap_or(1),
                 budget_s: arg_val(&args, "--budget").and_then(|s| s.parse().ok()).unwrap_or(60.0),
                 hunt: args.iter().any(|a| a == "--hunt"),
-                hang_limit_s: arg_val(&args, "--hang-limit").and_then(|s| s.parse().ok()).unwrap_or(10.0),
+                hang_limit_s: arg_val(&args, "--hang-limit").and_then(|s| s.parse().ok()).unwrap_or(30.0),
             };
             runner::worker(&a)
         }
